@@ -60,7 +60,7 @@ def area_weighted_mean(lon, lat, data):
 
 # Factor to convert a length unit to kilometers
 UNITS_CONVERSION_FACTORS = [
-    [{"cm", "centimeter", "centimeters"}, 1e-6],
+    [{"cm", "centimeter", "centimeters"}, 1e-5],
     [{"m", "meter", "meters"}, 1e-3],
     [{"km", "kilometer", "kilometers"}, 1],
     [{"mi", "mile", "miles"}, 1.609344],  # english statute mile
